@@ -1037,7 +1037,8 @@ class SupportComplexDataType(Element):
     value = property(_get_value, _set_value)
 
     def _get_children(self, trailing=False):
-        if is_base_datatype(self.datatype, self.version) or self.datatype is None:
+        # (a component of type varies - e.g. f.varies_1 = 'a' on OBX_5 - holds its subcomponents like an untyped one)
+        if is_base_datatype(self.datatype, self.version) or self.datatype in (None, 'varies'):
             return [[c for c in self.children]]
         else:
             return Element._get_children(self, trailing=False)
